@@ -626,7 +626,11 @@ func (e *dbEngine) Generate(profile string, seed uint64, tier string) (*Plan, er
 	if tier == "thorough" {
 		nops = 40 + g.r.IntN(400)
 	}
-	if w, ok := mixProfile(profile, g); ok {
+	concCkpt := profile == "checkpoint" && g.r.IntN(3) == 0
+	if w, ok := mixProfile(profile, g); ok && concCkpt {
+		_ = w
+		g.genCheckpointConc()
+	} else if ok {
 		if profile == "valsep" {
 			g.cfg.ValueSep = true
 			g.cfg.ValueSepMin = pick(&g.r, []int{1, 8, 32, 100})
@@ -685,7 +689,7 @@ func (e *dbEngine) Generate(profile string, seed uint64, tier string) (*Plan, er
 			g.add(DBOp{K: "scan"})
 		}
 	}
-	atomics := false
+	atomics := concCkpt
 	switch profile {
 	case "commit", "concurrent":
 		g.genCommit(profile)
